@@ -2437,10 +2437,13 @@ def _guard_signatures():
             @functools.wraps(f)
             def wrapped(*a, **k):
                 try:
-                    sig.bind(*a, **k)
-                except TypeError as ex:
-                    raise Unsupported(f"np.{name} called with arguments the shim does not model: {ex}")
-                return f(*a, **k)
+                    return f(*a, **k)
+                except TypeError:
+                    try:
+                        sig.bind(*a, **k)          # only on failure: was it the call itself that did not fit the signature?
+                    except TypeError as ex:
+                        raise Unsupported(f"np.{name} called with arguments the shim does not model: {ex}")
+                    raise
             return wrapped
         g[name] = make()
 
